@@ -553,9 +553,83 @@ def analyse_coro(p):
     return out
 
 
+# ---- miscellaneous fixed shapes (each found by a seeded-change agent on the unmodified tree or taken from DESIGN.md) --------
+MISC_HDR = HDR + ["class T(Entity):", "    clk = Port.input(Bit)", "    a = Port.input(Bit)", "    b = Port.input(Bit)",
+                  "    x = Port.input(Unsigned[2])", "    w = Port.input(BitVector[4])", "    o = Port.output(Bit, default=False)",
+                  "    o2 = Port.output(Unsigned[2], default=0)", "    def architecture(self):"]
+MISC = {
+    "select_with-nodefault-seq": (False, ["self.o2 <<= cohdl.select_with(self.x, {0: Unsigned[2](1), 1: Unsigned[2](2)})"]),
+    "select_with-default-seq": (False, ["self.o2 <<= cohdl.select_with(self.x, {0: Unsigned[2](1), 1: Unsigned[2](2)}, default=Unsigned[2](3))"]),
+    "std-select-nodefault-seq": (False, ["self.o2 <<= std.select(self.x, {0: Unsigned[2](1), 2: Unsigned[2](2)})"]),
+    "select_with-bit-nodefault-seq": (False, ["self.o2 <<= cohdl.select_with(self.a, {Bit(0): Unsigned[2](1), Bit(1): Unsigned[2](2)})"]),
+    "chained-bool-casts": (False, ["t = self.a == self.b", "u = bool(t)", "k = bool(u)", "if k:", "    self.o <<= True"]),
+    "bool-cast-twice-used": (False, ["t = self.a == self.b", "u = bool(t)", "if u:", "    self.o <<= True", "if bool(u):", "    self.o2 <<= 1"]),
+    "named-index-expr": (False, ["idx = self.x + 1", "self.o <<= self.w[idx]"]),
+    "await-indexed-bit": (True, ["await self.w[self.x]", "self.o <<= True"]),
+    "await-indexed-bit-later": (True, ["self.o2 <<= 1", "await self.a", "await self.w[self.x]", "self.o <<= True"]),
+    "ifexpr-temp-in-await": (True, ["t = self.a | self.b", "self.o <<= t", "await cohdl.expr(self.a & self.b)", "self.o2 <<= 2"]),
+    "while-continue-temp": (True, ["while True:", "    t = self.a ^ self.b", "    await self.a", "    if self.b:", "        continue", "    self.o <<= self.a"]),
+}
+
+
+def render_misc(name):
+    is_async, body = MISC[name]
+    L = list(MISC_HDR)
+    L.append("        @std.sequential(std.Clock(self.clk))")
+    L.append("        async def proc():" if is_async else "        def proc():")
+    L += ["            " + l for l in body]
+    L.append("")
+    return "\n".join(L)
+
+
+def analyse_misc(name):
+    src = render_misc(name)
+    res, _ = compile_source(src)
+    if not res.ok:
+        return {"status": "rejected", "must": False, "error": res.error}
+    out = {"status": "accepted", "must": False, "witness": None, "src": src, "problems": [], "evals": 0}
+    try:
+        d = compile_design(res.vhdl, poison=True)
+    except VhdlSyntaxError as e:
+        out["problems"].append(("syntax", str(e)))
+        return out
+    except Unsupported as e:
+        return {"status": "tool", "what": str(e), "src": src}
+    sim = d.sim(init=dict(clk=0, a=0, b=0, x=0, w=0))
+    del sim.PR[:]
+    seen = {sim.snapshot()}
+    frontier = [sim.snapshot()]
+    menu = [dict(a=a, b=b, x=x, w=w) for a in (0, 1) for b in (0, 1) for x in range(4) for w in (0, 5, 10, 15)]
+    while frontier:
+        nxt = []
+        for snap in frontier:
+            for m in menu:
+                sim.restore(snap)
+                try:
+                    sim.set_many(m)
+                    sim.clock()
+                except rt.SimError as e:
+                    out["problems"].append(("simerror", f"{e} with inputs {m}"))
+                    return out
+                out["evals"] += 1
+                pr = sim.poisoned_reads()
+                if pr:
+                    out["problems"].append(("poisoned-read", f"variables {pr} read before written in a state reached with inputs {m}"))
+                    return out
+                s2 = sim.snapshot()
+                if s2 not in seen:
+                    seen.add(s2)
+                    nxt.append(s2)
+        frontier = nxt
+    return out
+
+
 def work(tasks):
     out = []
     for kind, prog, flavour in tasks:
+        if kind == "misc":
+            out.append((kind, prog, flavour, analyse_misc(prog)))
+            continue
         if kind == "seq":
             out.append((kind, prog, flavour, analyse(prog, flavour)))
         elif kind == "ret":
@@ -579,6 +653,8 @@ def main(run: Run):
             tasks.append(("ret", p, fl))
     for p in coro_programs(5 if run.thorough else 4):
         tasks.append(("coro", p, "coro"))
+    for name in MISC:
+        tasks.append(("misc", name, "misc"))
     run.count("programs_generated", len(tasks))
     for kind, res in pmap(work, list(chunked(tasks, 30))):
         if kind != "ok":
@@ -622,8 +698,10 @@ def main(run: Run):
 
 
 def replay(run: Run, data):
-    prog = totuple(data["program"])
-    if data["kind"] in ("seq", "ret"):
+    prog = totuple(data["program"]) if data["kind"] != "misc" else data["program"]
+    if data["kind"] == "misc":
+        r = analyse_misc(data["program"])
+    elif data["kind"] in ("seq", "ret"):
         r = analyse(prog, data["flavour"], ret=data["kind"] == "ret")
     else:
         r = analyse_coro(prog)
